@@ -8,7 +8,8 @@ THEOREMS = ["Mesa.Agents." + t for t in (
     "C02_registry_exact_all_histories", "C02_by_type_exact_all_histories", "C02_creation_order_unless_reordered",
     "C02_unique_ids_all_histories", "C02_ids_never_change", "C02_remove_atomic_and_idempotent",
     "C02_other_models_untouched", "C02_create_agents_splits_arguments", "C02_sets_nodup_all_histories",
-    "C02_other_models_untouched_all_histories", "C02_direct_register_and_deregister")]
+    "C02_other_models_untouched_all_histories", "C02_direct_register_and_deregister",
+    "C02_removed_stays_removed_everywhere")]
 COUNTS = {"quick": 1000, "thorough": 150000}
 TRUSTED = [
     "CPython dict / WeakKeyDictionary keep insertion order; deleting a key keeps the order of the others (the model uses lists)",
